@@ -27,6 +27,8 @@ pub enum Prim {
     Fprintf(String, String),
     /// -exec true ; / -exec false ;
     Exec(bool),
+    /// -exec true {} + / -exec false {} + : always true; a batch of `false` fails (exit status 1)
+    ExecPlus(bool),
     Prune,
     Quit,
     Delete,
@@ -48,7 +50,7 @@ pub enum Ex {
 impl Prim {
     pub fn is_action(&self) -> bool {
         match self {
-            Prim::Print | Prim::Print0 | Prim::Printf(_) | Prim::Fprint(_) | Prim::Fprint0(_) | Prim::Fprintf(_, _) | Prim::Exec(_) | Prim::Delete => true,
+            Prim::Print | Prim::Print0 | Prim::Printf(_) | Prim::Fprint(_) | Prim::Fprint0(_) | Prim::Fprintf(_, _) | Prim::Exec(_) | Prim::ExecPlus(_) | Prim::Delete => true,
             Prim::Other(t) => matches!(t[0].as_str(), "-ls" | "-fls" | "-exec" | "-execdir" | "-ok" | "-okdir" | "-delete" | "-print" | "-print0" | "-printf" | "-fprint" | "-fprint0" | "-fprintf"),
             _ => false,
         }
@@ -68,6 +70,7 @@ impl Prim {
             Prim::Fprint0(f) => vec![s("-fprint0"), f.clone()],
             Prim::Fprintf(f, l) => vec![s("-fprintf"), f.clone(), format!("{l}:%p\\n")],
             Prim::Exec(b) => vec![s("-exec"), s(if *b { "true" } else { "false" }), s(";")],
+            Prim::ExecPlus(b) => vec![s("-exec"), s(if *b { "true" } else { "false" }), s("{}"), s("+")],
             Prim::Prune => vec![s("-prune")],
             Prim::Quit => vec![s("-quit")],
             Prim::Delete => vec![s("-delete")],
@@ -379,6 +382,7 @@ fn classify(v: Vec<String>) -> Prim {
             None => Prim::Other(v),
         },
         "-exec" if v.len() == 3 && v[2] == ";" && (v[1] == "true" || v[1] == "false") => Prim::Exec(v[1] == "true"),
+        "-exec" if v.len() == 4 && v[2] == "{}" && v[3] == "+" && (v[1] == "true" || v[1] == "false") => Prim::ExecPlus(v[1] == "true"),
         _ if OPTIONS.contains(&n) => Prim::Opt(v),
         _ => Prim::Other(v),
     }
@@ -445,6 +449,8 @@ pub struct EvalOut {
     pub prune_fired: u64,
     /// model cannot evaluate this expression (unmodelled primary reached)
     pub unmodelled: bool,
+    /// a path was handed to `-exec false {} +`: that batch fails, find's exit status is 1
+    pub failing_batch: bool,
 }
 
 pub struct Evaluator<'a> {
@@ -582,6 +588,12 @@ impl<'a> Evaluator<'a> {
                 true
             }
             Prim::Exec(b) => *b,
+            Prim::ExecPlus(b) => {
+                if !*b {
+                    self.out.failing_batch = true;
+                }
+                true
+            }
             Prim::Prune => {
                 // only directories (as the follow mode sees them) are cut
                 if e.type_of() == 'd' {
